@@ -14,6 +14,10 @@
   WHAT IS NOT PROVED HERE: the re-casing, decomposed-vs-precomposed and accent-folding variants of the query,
   and the decomposed-vs-precomposed *title* statement, are NOT covered by any theorem in this file. They are
   exercised only by the correspondence run and the C11 probe of the harness.
+  SORTER CAVEAT: equality of the *selected* results needs the sorting oracle to treat hits as opaque values
+  (`SorterNatural`): the hits for the two queries differ in the `lo`/`hi` stored in their query matches, and an
+  arbitrary Lean function of the `Sorter.sort` type could break ties between equal-score hits by looking at
+  them. `C11_search_congr_topk` is the statement that holds for every sorted-permutation sorter.
   Statements only; helper lemmas live in LucidProofs/Lemmas/QueryCongr.lean.
 -/
 import LucidProofs.Lemmas.Facts
@@ -70,5 +74,55 @@ example : QEquiv 2
       chars := [45, 45, 97, 98, 32, 99, 100],
       classes := [.punctuation, .any, .vowel, .consonant, .whitespace, .consonant, .consonant] } :=
   QEquiv.of_prefix [45, 45] [.punctuation, .any] rfl rfl rfl rfl
+
+/-! ### the separator-prefix variant through the generated query tokenizer -/
+
+/-- Tokenising a query with a prefix `p` of separators in front gives the tokenisation of the query without
+    the prefix, shifted right by `p.length` (`QEquiv`). Hypotheses on the prefix: every character of `p` is a
+    separator of the split step (`isSepChar`: whitespace, control or in the punctuation set), none is
+    upper-case (so that the conditional `lower` step takes the same branch), and none occurs in a key of the
+    language's compose or reduce table (so that normalisation passes `p` through one character at a time and
+    no two-character pattern straddles the border between `p` and `s`). Holds for every language table,
+    character oracle and stemmer. -/
+theorem C11_separator_prefix_equiv (E : Env) (p s : List Nat)
+    (hsep : ∀ c ∈ p, isSepChar E.U E.K c = true)
+    (hup : ∀ c ∈ p, E.U.isUppercase c = false)
+    (hcomp : NoKeyChar E.T.compose p) (hred : NoKeyChar E.T.reduce p) :
+    QEquiv p.length (tokenizeQuery Gen.srcProg E s) (tokenizeQuery Gen.srcProg E (p ++ s)) :=
+  tokenize_separator_prefix E p s hsep hup hcomp hred
+
+/-- Prefixing separators to the query string never changes the search results (ids and highlighted titles)
+    nor the store after the call: every store, limit, markers, `K`, score order, language and stemmer. -/
+theorem C11_separator_prefix {S : Sorter} (hS : SorterNatural S) (E : Env) (K : Consts) (order : List ScoreType)
+    (st : Store) (p s : List Nat)
+    (hsep : ∀ c ∈ p, isSepChar E.U E.K c = true)
+    (hup : ∀ c ∈ p, E.U.isUppercase c = false)
+    (hcomp : NoKeyChar E.T.compose p) (hred : NoKeyChar E.T.reduce p) :
+    st.searchM S K order (tokenizeQuery Gen.srcProg E (p ++ s)) =
+      st.searchM S K order (tokenizeQuery Gen.srcProg E s) :=
+  searchM_congr hS K order st (C11_separator_prefix_equiv E p s hsep hup hcomp hred)
+
+/-- the same for the results only, at the constants and score order generated from the source -/
+theorem C11_separator_prefix_src {S : Sorter} (hS : SorterNatural S) (E : Env) (st : Store) (p s : List Nat)
+    (hsep : ∀ c ∈ p, isSepChar E.U E.K c = true)
+    (hup : ∀ c ∈ p, E.U.isUppercase c = false)
+    (hcomp : NoKeyChar E.T.compose p) (hred : NoKeyChar E.T.reduce p) :
+    st.search S Gen.srcConsts Gen.srcScoreOrder (tokenizeQuery Gen.srcProg E (p ++ s)) =
+      st.search S Gen.srcConsts Gen.srcScoreOrder (tokenizeQuery Gen.srcProg E s) := by
+  simp only [Store.search, C11_separator_prefix hS E _ _ st p s hsep hup hcomp hred]
+
+/-- non-vacuity: a small character oracle, the generated German tables and constants, prefix `" - "` -/
+private def exU : Unicode :=
+  { isAlphabetic := fun c => (65 ≤ c && c ≤ 90) || (97 ≤ c && c ≤ 122) || 192 ≤ c,
+    isNumeric := fun c => 48 ≤ c && c ≤ 57,
+    isWhitespace := fun c => c == 32 || c == 9,
+    isControl := fun c => c < 32,
+    isUppercase := fun c => 65 ≤ c && c ≤ 90,
+    lower1 := fun c => if 65 ≤ c && c ≤ 90 then c + 32 else c }
+private def exE : Env := { U := exU, K := Gen.srcConsts, T := Gen.lang_de, stem := List.length }
+
+example : (∀ c ∈ [32, 45, 32], isSepChar exE.U exE.K c = true) ∧ (∀ c ∈ [32, 45, 32], exE.U.isUppercase c = false) ∧
+    NoKeyChar exE.T.compose [32, 45, 32] ∧ NoKeyChar exE.T.reduce [32, 45, 32] := by
+  refine ⟨by decide, by decide, ?_, ?_⟩ <;> (unfold NoKeyChar; decide)
 
 end Lucid
